@@ -233,6 +233,12 @@ impl ProofVerifier {
 
         ProofVerifier::_check_verify_params_consistency(&self.credentials, proof)?;
 
+        // The responses recorded for the common attributes belong to one proof: a verifier
+        // that is used again must not compare a proof with the responses of an earlier one
+        for m_hat in self.common_attributes.values_mut() {
+            *m_hat = None;
+        }
+
         let mut tau_list: Vec<Vec<u8>> = Vec::new();
 
         for idx in 0..proof.proofs.len() {
